@@ -8,7 +8,11 @@
 //!   then one field per operation
 //!   1,t,kind,id[,size]  start task t: kind 1 QoS1 send_at_least_once, 2 QoS2 send_exactly_once, 3 subscribe().send(),
 //!                       4 unsubscribe().send(), 5 MqttSink::ready(), 6 QoS0 send_at_most_once (id ignored),
-//!                       7 stream_at_least_once(size); id 0 = automatic packet id, else `.packet_id(id)`;
+//!                       7 stream_at_least_once(size), 8 QoS1 send_at_least_once whose PUBLISH cannot be encoded: its
+//!                       payload (8192 bytes) makes the packet larger than the maximum outbound packet size of the
+//!                       connection (4096: v3 `MqttServiceConfig::set_max_size`, which the v3 codec also applies to
+//!                       the PUBLISH packets it encodes; v5 the Maximum Packet Size announced by the peer in its
+//!                       CONNECT (role 0) / CONNACK (role 1)); id 0 = automatic packet id, else `.packet_id(id)`;
 //!                       = call the API and poll the returned future once. A task number already in use: no-op.
 //!   16,t,kind,id[,size] create task t: call the API, do NOT poll the returned future (`1` = `16` then `2,t`)
 //!   2,t                 poll task t once
@@ -50,6 +54,12 @@ use crate::conn;
 use crate::rt::{poll_once, settle};
 
 type BoxFut<T> = Pin<Box<dyn Future<Output = T>>>;
+
+/// maximum outbound packet size of every connection of this engine; every packet of the kinds 1..7 stays far
+/// below it (a streamed PUBLISH counts with its declared size: the generators use sizes <= 25)
+const MAX_PACKET: u32 = 4096;
+/// payload of a kind 8 send: the PUBLISH is larger than `MAX_PACKET`
+const BIG_PAYLOAD: usize = 8192;
 
 /// what a task's future resolves to
 enum Out {
@@ -177,6 +187,10 @@ macro_rules! api {
                         }))
                     }
                     6 => Started::Sync(status(publish().send_at_most_once(Bytes::from_static(b"x")))),
+                    8 => {
+                        let f = publish().send_at_least_once(Bytes::from(vec![0x78u8; BIG_PAYLOAD]));
+                        Started::Fut(Box::pin(async move { Out::Status(status(f.await)) }))
+                    }
                     _ => {
                         let (f, stream) = publish().stream_at_least_once(size);
                         let stream = Rc::new(stream);
@@ -397,7 +411,7 @@ async fn drive<A: Api>(api: A, peer: IoTest, v5: bool, c: &Fields) -> Fields {
             o @ (1 | 16) => {
                 let first_poll = o == 1;
                 let (t, kind, id, size) = (arg(op, 1), arg(op, 2), arg(op, 3), arg(op, 4));
-                if (1..=7).contains(&kind) && !tasks.contains_key(&t) {
+                if (1..=8).contains(&kind) && !tasks.contains_key(&t) {
                     let mut task = Task { kind, ..Task::default() };
                     match guard(|| api.start(kind, id as u16, size as u32)) {
                         None => task.status = 9,
@@ -552,13 +566,15 @@ pub async fn run_case(v5: bool, c: &Fields) -> Fields {
     if role == 0 {
         let cfg = MqttServiceConfig::new().set_max_send(cap).set_max_qos(ntex_mqtt::QoS::ExactlyOnce);
         if v5 {
+            // the peer's CONNECT announces Maximum Packet Size = MAX_PACKET
             let slot = Rc::new(RefCell::new(None));
-            let peer = conn::v5_server_with_sink(slot.clone(), cfg).await;
+            let peer = conn::v5_server_with_sink_connect(slot.clone(), cfg, conn::V5_CONNECT_MAX_4096).await;
             let sink: v5::MqttSink = slot.borrow().clone().expect("sink");
             drive(Api5(sink), peer, true, c).await
         } else {
+            // v3 has no negotiated outbound limit: the codec's one max size (inbound frames AND encoded PUBLISH)
             let slot = Rc::new(RefCell::new(None));
-            let peer = conn::v3_server_with_sink(slot.clone(), cfg).await;
+            let peer = conn::v3_server_with_sink(slot.clone(), cfg.set_max_size(MAX_PACKET)).await;
             let sink: v3::MqttSink = slot.borrow().clone().expect("sink");
             drive(Api3(sink), peer, false, c).await
         }
@@ -577,7 +593,12 @@ macro_rules! client_conn {
         async fn $fname(cap: u16) -> ($v::MqttSink, IoTest) {
             let (peer, end) = IoTest::create();
             peer.remote_buffer_cap(1 << 20);
-            let cfg = conn::shared_cfg($tag, MqttServiceConfig::new().set_max_send(cap));
+            // (v3: the codec's max size is the outbound PUBLISH limit; the v5 client ignores it, its outbound
+            // limit is the Maximum Packet Size of the CONNACK)
+            let cfg = conn::shared_cfg(
+                $tag,
+                MqttServiceConfig::new().set_max_send(cap).set_max_size(if $tag == "C3" { MAX_PACKET } else { 0 }),
+            );
             let end = RefCell::new(Some(end));
             let cfg2 = cfg.clone();
             let connector = $v::client::MqttConnector::<String, _>::new().connector(fn_service(
@@ -613,12 +634,15 @@ macro_rules! client_conn {
 }
 
 client_conn!(client3, v3, "C3", |_cap: u16| vec![0x20, 2, 0, 0]);
-// CONNACK: session present 0, success, properties: receive maximum = cap
+// CONNACK: session present 0, success, properties: receive maximum = cap, maximum packet size = MAX_PACKET
 // (receive maximum 0 is a protocol error: the window is then closed through the hook)
-client_conn!(client5, v5, "C5", |cap: u16| if cap == 0 {
-    vec![0x20, 3, 0, 0, 0]
-} else {
-    vec![0x20, 6, 0, 0, 3, 0x21, (cap >> 8) as u8, cap as u8]
+client_conn!(client5, v5, "C5", |cap: u16| {
+    let m = MAX_PACKET.to_be_bytes();
+    if cap == 0 {
+        vec![0x20, 8, 0, 0, 5, 0x27, m[0], m[1], m[2], m[3]]
+    } else {
+        vec![0x20, 11, 0, 0, 8, 0x21, (cap >> 8) as u8, cap as u8, 0x27, m[0], m[1], m[2], m[3]]
+    }
 });
 
 /// all cases of the input on single-threaded ntex runtimes; a panic that escapes the per-task guards
